@@ -80,12 +80,27 @@ class Line(GeoBody):
 
     def __hash__(self):
         """Return hash of a Line"""
+        # Equal lines may be given by different support points and by
+        # direction vectors of any length and sign, so hash a canonical form:
+        # the unit direction whose first significant component is positive
+        # and the point of the line that is closest to the origin.
+        d = self.dv.normalized()
+        for c in d:
+            if abs(c) > get_eps():
+                if c < 0:
+                    d = -d
+                break
+        foot = self.sv - (self.sv * d) * d
+        sig = get_sig_figures()
         return hash(
             (
                 "Line",
-                round(self.dv[0], SIG_FIGURES),
-                round(self.dv[1], SIG_FIGURES),
-                round(self.dv[0] * self.sv[1] - self.dv[1] * self.sv[0], SIG_FIGURES),
+                round(d[0], sig),
+                round(d[1], sig),
+                round(d[2], sig),
+                round(foot[0], sig),
+                round(foot[1], sig),
+                round(foot[2], sig),
             )
         )
 
